@@ -1,7 +1,8 @@
 import Driver.Util
 import PasslibVerif.Model.Totp
+import PasslibVerif.Model.TotpKey
 namespace Driver.Totp
-open Py Driver Model.Totp
+open Py Driver Model.Totp Model.TotpKey
 
 def intOf (s : String) : Option Int := s.toInt?
 
@@ -64,6 +65,14 @@ def handle (args : List String) : String :=
   | ["pack64", c] => match c.toNat? with | some c => "ok " ++ showHex (packUint64 c) | none => bad
   | ["fmt", w, n] => match w.toNat?, intOf n with
     | some w, some n => "ok " ++ String.ofList ((fmtZeroPad w n).map Char.ofNat) | _, _ => bad
+  | ["key", fmt, cps] =>
+    match (match fmt with | "hex" => some Fmt.hex | "base32" => some Fmt.base32 | _ => none), natList cps with
+    | some f, some k => showBytesRes (decodeKey f k)
+    | _, _ => bad
+  | ["hexkey", h] => match ofHex h with
+    | some k => "ok " ++ String.ofList ((hexKey k).map Char.ofNat) | none => bad
+  | ["b32key", h] => match ofHex h with
+    | some k => "ok " ++ String.ofList ((base32Key k).map Char.ofNat) | none => bad
   | _ => bad
 
 end Driver.Totp
